@@ -139,3 +139,26 @@ Example C06_hc_chain_nonvacuous :
   (0 < cr_ret r /\ strict_valid [] (cr_out r) = Some l) /\ (0 < cr_ret r3 /\ strict_valid [] (cr_out r3) = Some l) /\
   chain_level 9 = true /\ chain_level 3 = true.
 Proof. vm_compute. repeat split; reflexivity. Qed.
+
+(* HC levels 3-12 (hash chain and optimal parser): every block returned by the one-shot entry points, on a context
+   with any history (levels mixed), is STRICTLY valid and decodes to the input. *)
+From LZ4V Require Model.HcOpt Proofs.HcOptParser.
+From LZ4V Require Import Model.HcOptApi Proofs.HcOptApiSound.
+
+Theorem C06_hc_opt_strict :
+  forall c src srcSize cap cLevel,
+    cc_ok c -> src_ok src -> 0 <= srcSize < 2147483648 -> 0 <= cap -> all_level cLevel = true ->
+    let r := compress_HC_fastReset_all c src srcSize cap cLevel in
+    0 < cr_ret r ->
+    cr_ret r = Z.of_nat (length (cr_out r)) /\
+    strict_valid [] (cr_out r) = Some (load_list src 0 (Z.to_nat srcSize)).
+Proof. exact opt_strict. Qed.
+Print Assumptions C06_hc_opt_strict.
+
+Example C06_hc_opt_nonvacuous :
+  let l := repeat 7 55 ++ [1; 2; 3; 4; 5] in
+  let r := compress_HC_all (mem_of_list 0 l) 60 100 12 in
+  let r3 := compress_HC_all (mem_of_list 0 l) 60 100 10 in
+  (0 < cr_ret r /\ strict_valid [] (cr_out r) = Some l) /\ (0 < cr_ret r3 /\ strict_valid [] (cr_out r3) = Some l) /\
+  all_level 12 = true /\ all_level 10 = true.
+Proof. vm_compute. repeat split; reflexivity. Qed.
